@@ -10,6 +10,8 @@ DEAD = ("crash", "stack-overflow", "oom", "timeout")
 
 
 def klass(r):
+    if r.get("wide"):
+        return "map-of-%d-entries" % r["wide"]
     if r["cyc"]:
         return nv.shape_class(r)
     if not r["within"]:
@@ -59,6 +61,15 @@ def run(ctx):
                 slow.append(p)
             else:
                 progs.append(p)
+    # wide maps (python-generated family; the model's statement is the same: sorted key order at ANY size):
+    # maps of MAX_ARRAY_SIZE-2 .. MAX_ARRAY_SIZE+3 entries built with SETITEM, then serialized / listed
+    if not ctx.replay_in:
+        for n in ((1022, 1023, 1024, 1025, 1026, 1027, 1100, 2049) if ctx.thorough else (1023, 1024, 1025, 1026, 1027)):
+            code = nv.op("NEWMAP") + b"".join(nv.op("DUP") + nv.push_int(k) + nv.push_int(1) + nv.op("SETITEM") for k in range(1, n + 1))
+            wrow = {"cells": [{"kind": "map", "slots": [0, 0]}], "cyc": False, "within": True, "wide": n,
+                    "asis": {"ser": ["ok"], "nat": ["err"], "det": [False]}}
+            for c in ("ser", "serdeser", "keysser", "valuesser"):
+                progs.append({"row": wrow, "cons": c, "hex": (code + nv.CONSUMERS[c]()).hex()})
     n_slow = 60 if ctx.thorough else 12
     slow = ctx.rng.sample(slow, min(len(slow), n_slow))
     items = []
@@ -99,7 +110,7 @@ def run(ctx):
         if len(keys) > 1:
             k = "%s:%s:order-dependent-result" % (p["cons"], klass(r))
             viol.setdefault(k, []).append((p, sorted(keys)))
-        elif p["cons"] == "ser" and r["within"] and outs and outs[0]["out"] == "ok":
+        elif p["cons"] == "ser" and r["within"] and not r.get("wide") and outs and outs[0]["out"] == "ok":
             want = "true|0:%s|null|" % bytes(r["bytes"]).hex()
             if list(keys)[0] != want:
                 drift += 1
@@ -112,7 +123,7 @@ def run(ctx):
         p, keys = viol[k][0]
         r = p["row"]
         ctx.violation(k, "program build{%s}+%s gives %d different results over %d runs in %d processes: %s; as-coded model predicts Serialize outcomes %s; %d program(s) of this class"
-                      % (nv.heap_text(r), p["cons"], len(keys), reps, nprocs, [x[:80] for x in keys][:3], r["asis"]["ser"], len(viol[k])),
+                      % (("map of %d entries" % r["wide"]) if r.get("wide") else nv.heap_text(r), p["cons"], len(keys), reps, nprocs, [x[:80] for x in keys][:3], r["asis"]["ser"], len(viol[k])),
                       {"cells": [x[0]["row"]["cells"] for x in viol[k][:10]], "consumer": p["cons"], "hex": p["hex"]})
     if progs:
         p = progs[len(progs) // 2]
